@@ -1,5 +1,6 @@
 import VermouthModel.C02_Repo
 import VermouthProofs.C02_Good
+import VermouthProofs.C02_C13Chars
 /-!
 C02 ∘ C13 — token level facts about the handlers of `C13.itpHandle` on the tokens the C02 writer
 model writes: row numbers (`int()`), atom references (`isdigit`, 1-based), the `atom_idxs`
@@ -30,8 +31,19 @@ theorem allDigits_toString (n : Nat) : allDigits (toString n) = true := by
     rw [this] at h1
     exact absurd rfl h1
 
+theorem intBodyRest_digits (l : List Char) (h : ∀ c ∈ l, c.isDigit = true) : intBodyRest l = true := by
+  induction l with
+  | nil => rfl
+  | cons c r ih =>
+    have hc := h c (by simp)
+    have hne : c ≠ '_' := by intro e; subst e; revert hc; decide
+    have ihr := ih (fun x hx => h x (by simp [hx]))
+    rw [intBodyRest.eq_4 c r (fun _ _ e _ => hne e) (fun e _ => hne e), isDigit_eq, hc, ihr]
+    rfl
+
 theorem pyInt_toString (n : Nat) : pyInt? (toString n) = some (n : Int) := by
   obtain ⟨h1, h2⟩ := toString_digits n
+  have hlist : (toString n).toList = Nat.toDigits 10 n := Nat.toList_repr
   unfold pyInt?
   cases hl : (toString n).toList with
   | nil => exact absurd hl h1
@@ -39,15 +51,37 @@ theorem pyInt_toString (n : Nat) : pyInt? (toString n) = some (n : Int) := by
     have hc : c.isDigit = true := h2 c (by rw [hl]; simp)
     have hm : c ≠ '-' := by intro e; subst e; revert hc; decide
     have hp : c ≠ '+' := by intro e; subst e; revert hc; decide
-    have hall : (c :: r).all isDigit = true := by
-      rw [List.all_eq_true]; intro x hx; rw [isDigit_eq]; exact h2 x (by rw [hl]; exact hx)
+    have hcw : C02.isWs c = false := (C02.digit_not_ws c hc).1
+    -- nothing to strip
+    have hlast : ∃ b, (c :: r).getLast? = some b ∧ C02.isWs b = false := by
+      have hne : (c :: r) ≠ [] := by simp
+      refine ⟨(c :: r).getLast hne, List.getLast?_eq_some_getLast hne, ?_⟩
+      exact (C02.digit_not_ws _ (h2 _ (by rw [hl]; exact List.getLast_mem hne))).1
+    obtain ⟨b, hb, hbw⟩ := hlast
+    have hstrip : stripChars isPyWs (c :: r) = c :: r := by
+      have : isPyWs = C02.isWs := by funext x; exact isWs_eq x
+      rw [this]
+      exact stripChars_id _ _ c b rfl hcw hb hbw
+    have hall : ∀ x ∈ c :: r, x.isDigit = true := fun x hx => h2 x (by rw [hl]; exact hx)
+    have hbody : intBodyOk (c :: r) = true := by
+      simp only [intBodyOk, isDigit_eq, hc, Bool.true_and]
+      exact intBodyRest_digits _ hall
+    have hfilter : (c :: r).filter (· ≠ '_') = c :: r := by
+      rw [List.filter_eq_self]
+      intro x hx
+      have := hall x hx
+      simp only [ne_eq, decide_eq_true_eq]
+      intro e; subst e; revert this; decide
+    have hval : digitsValue (c :: r) = n := by
+      rw [← hl, hlist]
+      unfold digitsValue digitVal
+      rw [← Nat.ofDigitChars_eq_foldl]
+      exact Nat.ofDigitChars_ten_toDigits
+    simp only [hstrip]
     split
-    · next ds heq => simp only [List.cons.injEq] at heq; exact absurd heq.1 hm
-    · next ds heq => simp only [List.cons.injEq] at heq; exact absurd heq.1 hp
-    · next ds _ _ =>
-      simp only [List.isEmpty_cons, Bool.not_false, Bool.true_and, hall, if_true]
-      rw [← hl, String.ofList_toList, C02.toNat?_toString]
-      rfl
+    · next heq => simp only [List.cons.injEq] at heq; exact absurd heq.1 hm
+    · next heq => simp only [List.cons.injEq] at heq; exact absurd heq.1 hp
+    · simp only [hbody, if_true, hfilter, hval, Bool.false_eq_true, if_false]
 
 theorem toNat_inj (a b : Nat) (h : toString a = toString b) : a = b := by
   have h1 := C02.toNat?_toString a
@@ -166,6 +200,7 @@ theorem idxPositions_pos (len k : Nat) (l : List Idx) (hl : l.length = k) (off :
     obtain ⟨h1, h2⟩ := h
     cases a with
     | slice a b => simp at h1
+    | bad => simp at h1
     | pos n =>
       simp only [beq_iff_eq] at h1
       subst h1
